@@ -158,7 +158,7 @@ func RunScenes(rep *explore.Report, tier string, mk func() Visitor, o GridOpts) 
 		rep.Add("scene_configurations", 1)
 		rep.Add("scene_states", r.States())
 	}
-	rep.Set("scenes", "every history of "+strconv.Itoa(len(cfgs))+" (hand, scene) pairs: the hand under test played beside a second live game of the same process (replayed after every accepted operation), on a game object that was used for another hand before (ApplyOptions + Start), and on a used object that received the hand through LoadState; no state cloning")
+	rep.Set("scenes", "every history of "+strconv.Itoa(len(cfgs))+" (hand, scene) pairs: the hand under test played beside a second live game of the same process (replayed after every accepted operation), created from an options object that another game was created from and played to showdown before, on a game object that was used for another hand before (ApplyOptions + Start), and on a used object that received the hand through LoadState; no state cloning")
 	sceneCoverage(rep)
 	if rep.ViolationCount() > before {
 		rep.Cap("a scene configuration violated the property: the rest of the check was skipped")
